@@ -101,6 +101,15 @@ def run(chk):
                     pool.append((doc, demes.Graph.fromdict(doc)))
             except Exception:
                 continue
+        for _ in range(40 if chk.tier == "quick" else 600):
+            fam = gen.size_return_family(rng)
+            fam.setdefault("migrations", [])
+            fam.setdefault("pulses", [])
+            doc = decorate(rng, fam)
+            try:
+                pool.append((doc, demes.Graph.fromdict(doc)))
+            except Exception:
+                chk.count("family_rejected")
         for i, (doc, g) in enumerate(pool):
             want = g.asdict()
             for fmt in ("yaml", "json"):
